@@ -87,6 +87,13 @@ func (c *Ctx) hashTopology() *hashTopo {
 	if len(cands) != 1 {
 		lost("expected exactly one implementation of hash.Hasher.Hash that starts goroutines, found %d", len(cands))
 	}
+	// a worker pool packaged as a range-over-func iterator: once inlined, the consumer's loop body sits between the protocol checks
+	// of the iterator (state variable jump$N, early exit = "stop the producers"); that is not the shape the rules below model
+	for _, b := range cands[0].Blocks {
+		if strings.HasPrefix(b.Comment, "rangefunc.") {
+			lost("the hasher consumes its results through a range-over-func iterator: the goroutine topology is not the understood producer/jobs/workers/results/collector shape")
+		}
+	}
 	t := &hashTopo{c: c, fn: cands[0], procs: map[*ssa.Function]bool{cands[0]: true}}
 	t.fi = c.info(t.fn)
 	for _, b := range t.fn.Blocks {
